@@ -86,6 +86,16 @@ def _streaming_minimum(ctx, f, l, key):
                        'origin, index and distance all come from the minimal candidate')
 def r1(ctx):
     f = ctx.fn(BARCODEPARSER, f'{CLS}.expand')
+    sem = _expand_by_interpretation(ctx, f)
+    if sem is not None:
+        ok, ncase, wit = sem
+        ctx.counters['abstract_cases'] += ncase
+        ctx.emit('C03-R1', ok, BARCODEPARSER, f, f'expand interpreted on {ncase} (whitelist, k) cases over 2-letter barcodes, every observed string over ACGTN: ' +
+                 ('a string is registered iff one whitelisted barcode is strictly closest within k, with that barcode, its index and distance' if ok else f'differs: {wit}'),
+                 key='tie-guard', witness=wit, what='expand registers a barcode that is not the unique nearest whitelisted barcode (or misses one that is)')
+        ctx.emit('C03-R1', ok, BARCODEPARSER, f, 'registered origin, index and distance belong to the closest candidate', key='registered-values', nontrivial=False)
+        ctx.exhaustive['C03-R1'] = True
+        return
     # the resolution loop: over the keys of the candidate table, or over its items()
     loops = [l for l in f.body if isinstance(l, ast.For) and 'hammingSpace' in names_in(l.iter) and
              any(isinstance(c, ast.Call) and src(c.func) == 'self.addBarcode' for c in walk_no_nested(l))]
@@ -218,6 +228,109 @@ def r1(ctx):
     ctx.emit('C03-R1', ok, BARCODEPARSER, ab, 'addBarcode: distance 0 -> exact table; otherwise extended table entry (index, origin, distance): ' + '; '.join(detail), key='addBarcode-tables')
 
 
+def _expand_by_interpretation(ctx, f):
+    """expand() run by the abstract interpreter on every whitelist of 2 or 3 two-letter barcodes from a pool that contains near-duplicates and N, for
+    k = 0, 1, 2: the registrations (calls of self.addBarcode) have to be exactly the observed strings with a unique nearest whitelisted barcode
+    within k.  None when expand uses constructs outside the interpreted subset (the structural reading is used then)."""
+    import itertools
+    from ..consteval import run_function, Unfoldable
+    mod = ctx.ix.module(BARCODEPARSER)
+    hc = mod.defs.get('hamming_circle', [None])[0]
+    if hc is None:
+        return None
+    helpers = {q.split('.')[-1]: d[0] for q, d in mod.defs.items() if q.startswith(CLS + '.') and isinstance(d[0], ast.FunctionDef)}
+    pool = ['AA', 'AC', 'CA', 'GT', 'AN', 'NN']
+    params = [a.arg for a in f.args.args]
+    n = 0
+    try:
+        for size in (2, 3):
+            for wl in itertools.combinations(pool, size):
+                table = {b: i + 1 for i, b in enumerate(wl)}
+                for k in (0, 1, 2):
+                    n += 1
+                    calls = []
+
+                    def hook(ev, call, env, calls=calls):
+                        d = dotted(call.func) or ''
+                        if d == 'self.addBarcode':
+                            a = [ev.ev(x, env) for x in call.args]
+                            kw = {k_.arg: ev.ev(k_.value, env) for k_ in call.keywords}
+                            names = ['barcodeFileAlias', 'barcode', 'index', 'hammingDistance', 'originBarcode']
+                            rec = dict(zip(names, a))
+                            rec.update(kw)
+                            calls.append(rec)
+                            return None
+                        if d == 'hamming_circle':
+                            return run_function(hc, [ev.ev(x, env) for x in call.args], budget=20000)
+                        if d.startswith('self.') and d[5:] in helpers and d[5:] != 'expand':
+                            h = helpers[d[5:]]
+                            hp = [a_.arg for a_ in h.args.args]
+                            args = ([] if any('staticmethod' in src(x) for x in h.decorator_list) else ['<self>']) + [ev.ev(x, env) for x in call.args]
+                            return run_function(h, args, {k_.arg: ev.ev(k_.value, env) for k_ in call.keywords}, env={k_: v_ for k_, v_ in env.items() if '.' in k_}, budget=20000, call_hook=hook)
+                        if d in ('logging.info', 'logging.debug', 'logging.warning', 'print'):
+                            return None
+                        return NotImplemented
+                    env = {'self.barcodes': {'w': dict(table)}, 'self.extendedBarcodes': {'w': {}}}
+                    args = {params[1]: k, params[2]: 'w'} if len(params) >= 3 else None
+                    if args is None:
+                        return None
+                    run_function(f, ['<self>'], args, env=env, budget=400000, call_hook=hook)
+                    got = {}
+                    for c in calls:
+                        d = c.get('hammingDistance', 0)
+                        if d == 0:
+                            if c.get('barcode') not in table or c.get('index') != table[c.get('barcode')]:
+                                return (False, n, {'whitelist': list(wl), 'k': k, 'registered at distance 0': c})
+                            continue
+                        got[c.get('barcode')] = (c.get('originBarcode'), d, c.get('index'))
+                    want = {}
+                    for o in itertools.product('ACGTN', repeat=2):
+                        o = ''.join(o)
+                        ds = sorted((sum(1 for x, y in zip(o, b) if x != y), b) for b in wl)
+                        if ds[0][0] == 0 or ds[0][0] > k:
+                            continue
+                        if len(ds) > 1 and ds[1][0] == ds[0][0]:
+                            continue
+                        want[o] = (ds[0][1], ds[0][0], table[ds[0][1]])
+                    if got != want:
+                        diff = sorted(set(got.items()) ^ set(want.items()))[:2]
+                        o = diff[0][0]
+                        return (False, n, {'whitelist': list(wl), 'k': k, 'observed': o, 'registered as (origin, distance, index)': got.get(o), 'unique nearest within k': want.get(o)})
+    except Unfoldable:
+        return None
+    except Exception:
+        return None
+    return (True, n, None)
+
+
+def _circle_by_interpretation(g):
+    import itertools
+    from ..consteval import run_function, Unfoldable
+    n = 0
+    try:
+        for alphabet in ('ACG', 'ACGTN'):
+            for L in (1, 2, 3):
+                for s in itertools.product(alphabet, repeat=L):
+                    s = ''.join(s)
+                    if alphabet == 'ACGTN' and L == 3 and s[0] not in 'AN':
+                        continue            # a sample of the long-alphabet cubes is enough
+                    for d in range(0, min(L, 2) + 1):
+                        n += 1
+                        got = run_function(g, [s, d, alphabet], budget=60000)
+                        got = sorted(''.join(x) if not isinstance(x, str) else x for x in list(got or []))
+                        want = sorted(''.join(t) for t in itertools.product(alphabet, repeat=L) if sum(1 for a, b in zip(t, s) if a != b) == d)
+                        if got != want:
+                            extra = sorted(set(got) - set(want))[:3]
+                            missing = sorted(set(want) - set(got))[:3]
+                            dup = sorted({x for x in got if got.count(x) > 1})[:3]
+                            return (False, n, {'string': s, 'distance': d, 'alphabet': alphabet, 'not at that distance': extra, 'missing': missing, 'yielded twice': dup})
+    except Unfoldable:
+        return None
+    except Exception:
+        return None
+    return (True, n, None)
+
+
 @rule('C03', 'C03-R3', 'candidates are generated for every distance 0..k inclusive, over the alphabet {A,C,G,T,N}; hamming_circle changes exactly '
                        'n positions, each to one of the len(alphabet)-1 other letters')
 def r3(ctx):
@@ -244,6 +357,16 @@ def r3(ctx):
     if len(g.args.args) < 3:
         raise AnalysisError('hamming_circle: expected (string, distance, alphabet)')
     s_, n_, a_ = [x.arg for x in g.args.args][:3]
+    # decided by interpreting the generator on every string of length <= 3 over two small alphabets: it has to yield each string at Hamming
+    # distance exactly n once, and nothing else (however positions and replacement letters are enumerated)
+    sem = _circle_by_interpretation(g)
+    if sem is not None:
+        okc, ncase, wit = sem
+        ctx.counters['abstract_cases'] += ncase
+        ctx.emit('C03-R3', okc, BARCODEPARSER, g, f'hamming_circle interpreted on {ncase} (string, distance, alphabet) cases: ' + ('yields every string at distance exactly n once' if okc else
+                 f'differs for {wit}'), key='circle-enumeration', witness=wit, what='hamming_circle does not enumerate the Hamming sphere')
+        ctx.emit('C03-R3', okc, BARCODEPARSER, g, 'replacement rule: every changed position takes each of the other letters of the alphabet once', key='circle-replacement', nontrivial=False)
+        return
     loops = [l for l in walk_no_nested(g) if isinstance(l, ast.For)]
     # the three nested loops, outermost first (whether itertools is imported as a module or by name)
     def depth(l_):
@@ -419,32 +542,49 @@ def r6(ctx):
                        'its lines), never a slice of the lines (a whitelist without a final newline would lose its last barcode)')
 def r7(ctx):
     f = ctx.fn(BARCODEPARSER, f'{CLS}.parse_barcode_file')
-    handles = {it.optional_vars.id for w in walk_no_nested(f) if isinstance(w, ast.With) for it in w.items if isinstance(it.optional_vars, ast.Name)}
+    mod = ctx.ix.module(BARCODEPARSER)
+
+    def handles_of(fn):
+        return {it.optional_vars.id for w in walk_no_nested(fn) if isinstance(w, ast.With) for it in w.items if isinstance(it.optional_vars, ast.Name)}
     loops = [l for l in walk_no_nested(f) if isinstance(l, ast.For) and any(isinstance(c, ast.Call) and isinstance(c.func, ast.Attribute) and c.func.attr == 'addBarcode' for c in ast.walk(l))]
     ctx.need('C03-R7', len(loops), 1, 'loops registering barcodes in parse_barcode_file')
 
-    def whole(e, depth=0):
-        """'all' (every line), or ('slice', text) / ('unknown', text)"""
-        if depth > 6:
+    def whole(e, depth=0, scope=None):
+        """'all' (every line), or ('slice', text) / ('unknown', text); scope: the function whose locals `e` uses"""
+        scope = scope or f
+        if depth > 8:
             return ('unknown', src(e))
         if isinstance(e, ast.Name):
-            if e.id in handles:
+            if e.id in handles_of(scope):
                 return 'all'
-            ds = [a.value for a in walk_no_nested(f) if isinstance(a, ast.Assign) and len(a.targets) == 1 and src(a.targets[0]) == e.id]
+            ds = [a.value for a in walk_no_nested(scope) if isinstance(a, ast.Assign) and len(a.targets) == 1 and src(a.targets[0]) == e.id]
             if len(ds) == 1:
-                return whole(ds[0], depth + 1)
+                return whole(ds[0], depth + 1, scope)
             return ('unknown', src(e))
         if isinstance(e, ast.Call):
             fn = last_name(dotted(e.func) or '')
             if fn in ('enumerate', 'iter', 'list', 'tuple') and e.args:
-                return whole(e.args[0], depth + 1)
+                return whole(e.args[0], depth + 1, scope)
+            # a reader function of this module: what it returns (on every return) decides
+            helper = mod.defs.get(fn, mod.defs.get(f'{CLS}.{fn}', [None]))[0] if (isinstance(e.func, ast.Name) or src(e.func) == f'self.{fn}') else None
+            if helper is not None and isinstance(helper, ast.FunctionDef):
+                rs_ = [r_ for r_ in walk_no_nested(helper) if isinstance(r_, ast.Return) and r_.value is not None]
+                ys_ = [y_ for y_ in walk_no_nested(helper) if isinstance(y_, ast.Yield)]
+                if rs_ and not ys_:
+                    got = [whole(r_.value, depth + 1, helper) for r_ in rs_]
+                    return 'all' if all(g_ == 'all' for g_ in got) else next(g_ for g_ in got if g_ != 'all')
+                if ys_ and not rs_:
+                    # a generator yielding once per element of a loop over the file
+                    loops_ = [l_ for l_ in walk_no_nested(helper) if isinstance(l_, ast.For) and any(y_ is x for y_ in ys_ for x in ast.walk(l_))]
+                    if len(loops_) == 1 and not any(isinstance(x, (ast.Continue, ast.Break)) for x in walk_no_nested(loops_[0])):
+                        return whole(loops_[0].iter, depth + 1, helper)
             if isinstance(e.func, ast.Attribute) and fn in ('readlines', 'splitlines') and not e.args:
                 inner = e.func.value
                 if fn == 'splitlines' and isinstance(inner, ast.Call) and isinstance(inner.func, ast.Attribute) and inner.func.attr == 'read':
                     inner = inner.func.value
-                return whole(inner, depth + 1)
+                return whole(inner, depth + 1, scope)
         if isinstance(e, (ast.ListComp, ast.GeneratorExp)) and len(e.generators) == 1 and not e.generators[0].ifs:
-            return whole(e.generators[0].iter, depth + 1)
+            return whole(e.generators[0].iter, depth + 1, scope)
         if isinstance(e, ast.Subscript) and isinstance(e.slice, ast.Slice):
             return ('slice', src(e))
         return ('unknown', src(e))
